@@ -559,6 +559,14 @@ PLANTS = [
     P("ac-255-255-ok", "E", "$trace(" + _args(255) + ", " + _args(255, True) + ")", "argcount", never),
     P("ac-256-method", "E", "$[].append(" + _args(256) + ")", "argcount", always),
     P("ac-300-star", "E", "$trace(" + _args(300) + ", *[1], **{})", "argcount", always),
+    # *args and **kwargs are not counted: the limits are on the written positional and named arguments
+    P("ac-255-star-ok", "E", "$trace(" + _args(255) + ", *[1])", "argcount", never),
+    P("ac-255-starstar-ok", "E", "$trace(" + _args(255) + ", **{})", "argcount", never),
+    P("ac-255-both-ok", "E", "$trace(" + _args(255) + ", *[1], **{})", "argcount", never),
+    P("ac-254-both-ok", "E", "$trace(" + _args(254) + ", *[1], **{})", "argcount", never),
+    P("ac-255-named-both-ok", "E", "$trace(" + _args(255, True) + ", *[1], **{})", "argcount", never),
+    P("ac-256-star", "E", "$trace(" + _args(256) + ", *[1])", "argcount", always),
+    P("ac-256-named-starstar", "E", "$trace(" + _args(256, True) + ", **{})", "argcount", always),
     # parameters of lambda
     P("lp-dup", "E", "lambda a, $a: 0", "dupparam", always),
     P("lp-dup-opt", "E", "lambda a, b=1, $b=2: 0", "dupparam", always),
